@@ -29,6 +29,14 @@ def seed() -> int:
     return int(os.environ.get("VERIF_SEED", "0"))
 
 
+def wall_budget(tier_: str, quick_s: float, thorough_s: float) -> float:
+    """Wall budget (seconds) after which remaining cases of a run are skipped (recorded, never a verdict).
+    VERIF_QUICK_BUDGET / VERIF_THOROUGH_BUDGET override the per-check defaults."""
+    if tier_ == "quick":
+        return float(os.environ.get("VERIF_QUICK_BUDGET", quick_s))
+    return float(os.environ.get("VERIF_THOROUGH_BUDGET", thorough_s))
+
+
 def tier(argv_tier: str | None = None) -> str:
     t = argv_tier or os.environ.get("VERIF_TIER", "quick")
     assert t in ("quick", "thorough"), t
